@@ -172,9 +172,17 @@ def gen_project(rng) -> Tuple[List[Unit], Dict[str, Any]]:
                 lines += ["def f_%s_%s(a: %s.Inner, b=%s.FAST) -> %s.Inner:" % (cname, ln, ln, ln, ln),
                           "    %s" % Q3, "    does it", "    @raise %s.Error: when it cannot" % ln, "    %s" % Q3]
         lines += ["v_%s: %s = None" % (cname, local[-1]), "'''var, see L{%s}'''" % local[-1]]
+        # seeded C07-r6-2: the name a base class is written with is bound AGAIN further down the module (a later local
+        # class of the same name): the base is what the name meant at the class statement
+        rebind = None
+        if objkind == "class" and rng.random() < 0.35:
+            rebind = rng.choice(["definer", "reexporter"])
+            lines += ["from %s import %s as XB" % ((D, "X") if rebind == "definer" else (reexp_q, exported)),
+                      "class KB_%s(XB):" % cname, "    '''rebinder'''", "class XB:", "    '''a later local class of the same name'''"]
         (outer if where == "top" else sibs).append(Unit(where + "." + cname, False, "\n".join(lines) + "\n", where))
         consumers.append({"module": where + "." + cname, "form": form, "locals": local, "use": use, "cname": cname,
-                          "alias": ("t_%s.%s" % (cname, exported)) if via_alias else None, "var_at": where + "." + cname})
+                          "alias": ("t_%s.%s" % (cname, exported)) if via_alias else None, "var_at": where + "." + cname,
+                          "rebind": rebind})
     if pub:
         # one more module publishes a consumer's variable: the annotation (and the docstring) of that variable are
         # references to the object that now sit inside a moved object
@@ -262,6 +270,9 @@ class Clock:
 _DEFINER_REFS = {"consumer-import-from-definer:unresolved", "base-via-definer:before-move:unresolved", "base-via-definer:after-move:unresolved",
                  "xref-via-definer-import:unresolved", "xref-via-qualified-name:unresolved", "annotation-via-definer-import:unlinked",
                  "find_object-old-name",
+                 # the base written with a name imported from the definer is not found (the defect itself), so the later
+                 # local class of that name is taken: a consequence in these two layouts, a violation of its own elsewhere
+                 "base-via-definer:name-rebound-later",
                  "dotted-annotation-via-definer-import:unlinked", "dotted-default-via-definer-import:unlinked", "dotted-raise-via-definer-import:unlinked"}
 SHAPES = [
     # (meta key, signature, the failures the defect explains)
@@ -408,6 +419,12 @@ def oracle(ctx, system, clk, meta, order, payload) -> None:
                     how = "definer:" + when
                 ctx.fail(f"base-via-{how}:unresolved", payload,
                          f"{c['module']}.K bases {None if k is None else k.baseobjects!r} (order {order})")
+            if c.get("rebind"):
+                kb = system.allobjects.get(c["module"] + ".KB_" + c["cname"])
+                if kb is None or list(kb.baseobjects) != [obj]:
+                    ctx.fail("base-via-%s:name-rebound-later" % c["rebind"], payload,
+                             f"{c['module']}.KB_{c['cname']}: written `class KB(XB)` right after importing XB (the object) from the {c['rebind']}; "
+                             f"a later `class XB` in the same module must not become its base: bases {None if kb is None else kb.baseobjects!r} (order {order})")
             if k is not None:
                 for ident in (c["use"], old_name, new_name):
                     t = _xref(k, ident)
